@@ -207,6 +207,12 @@ def openChannel {σ : Type} (fl : Flavour) (P : Pats) (cfg : Cfg)
     else ⟨.ok, r.queue, r.trace, false, r.dev⟩
   | o => ⟨o, r.queue, r.trace ++ [.close], true, r.dev⟩
 
+/-- `Channel.Open` with `AuthBypass` set, or over a transport that does not ask for in-channel
+    authentication (`InChannelAuthUnsupported`): the read loop is started and nothing else happens —
+    whatever the device shows stays in the queue for the first operation -/
+def openNoAuth {σ : Type} (d : σ) (q : List Bytes) : OpenRes σ :=
+  ⟨.ok, q, [], false, d⟩
+
 /-! ## the login device: scripted dialogues -/
 
 /-- what an emission of the device is, from the device's point of view -/
